@@ -236,7 +236,8 @@ func (s *indexKVStore) PrepareFlush() {
 	s.lock.Lock()
 	defer s.lock.Unlock()
 
-	if s.immutable == nil {
+	// an empty batch is never flushed (and so never cleared): only names that wait for a flush are switched
+	if s.immutable == nil && !s.mutable.IsEmpty() {
 		s.immutable = s.mutable
 		s.mutable = imap.NewIntMap[map[string]uint32]()
 	}
